@@ -47,6 +47,8 @@ pub struct Ev {
     pub ok: bool,
     /// number of the redb API call in progress (u32::MAX = none / a drop)
     pub api: u32,
+    /// global sequence number taken when the call ENTERED the backend method (before its lock)
+    pub seq: u64,
 }
 
 #[derive(Clone, Copy, Debug, PartialEq, Eq)]
@@ -64,7 +66,16 @@ pub enum Pending {
     SetLen(u64),
 }
 
+pub static ENTRY_SEQ: std::sync::atomic::AtomicU64 = std::sync::atomic::AtomicU64::new(1);
+pub fn entry_seq() -> u64 {
+    ENTRY_SEQ.fetch_add(1, std::sync::atomic::Ordering::SeqCst)
+}
+
 pub struct MonState {
+    /// entry sequence number of the call being recorded (set by the method before `enter`)
+    pub cur_seq: u64,
+    /// sequence number taken when close() returned (0 = not closed)
+    pub close_exit_seq: u64,
     pub data: Vec<u8>,
     pub len0: u64,
     pub events: Vec<Ev>,
@@ -100,6 +111,8 @@ impl MonBackend {
     pub fn new(data: Vec<u8>) -> Self {
         let len0 = data.len() as u64;
         MonBackend(Arc::new(Mutex::new(MonState {
+            cur_seq: 0,
+            close_exit_seq: 0,
             synced: data.clone(),
             data,
             len0,
@@ -160,7 +173,8 @@ impl MonBackend {
             Fail::From(i) => k >= i,
         };
         let api = g.cur_api;
-        g.events.push(Ev { kind, off, len, ok: !fail, api });
+        let seq = g.cur_seq;
+        g.events.push(Ev { kind, off, len, ok: !fail, api, seq });
         if g.latch_log {
             redb::verif_c08::latch_log_backend(kind as u8, !fail);
         }
@@ -173,14 +187,18 @@ impl MonBackend {
 
 impl StorageBackend for MonBackend {
     fn len(&self) -> io::Result<u64> {
+        let seq = entry_seq();
         let mut g = self.lock();
+        g.cur_seq = seq;
         if !Self::enter(&mut g, Kind::Len, 0, 0) {
             return Err(Self::injected());
         }
         Ok(g.data.len() as u64)
     }
     fn read(&self, offset: u64, out: &mut [u8]) -> io::Result<()> {
+        let seq = entry_seq();
         let mut g = self.lock();
+        g.cur_seq = seq;
         let ok = Self::enter(&mut g, Kind::Read, offset, out.len() as u64);
         let end = offset.checked_add(out.len() as u64);
         if end.is_none() || end.unwrap() > g.data.len() as u64 {
@@ -196,7 +214,9 @@ impl StorageBackend for MonBackend {
         Ok(())
     }
     fn set_len(&self, len: u64) -> io::Result<()> {
+        let seq = entry_seq();
         let mut g = self.lock();
+        g.cur_seq = seq;
         if !Self::enter(&mut g, Kind::SetLen, len, 0) {
             return Err(Self::injected());
         }
@@ -212,7 +232,9 @@ impl StorageBackend for MonBackend {
         Ok(())
     }
     fn sync_data(&self) -> io::Result<()> {
+        let seq = entry_seq();
         let mut g = self.lock();
+        g.cur_seq = seq;
         if !Self::enter(&mut g, Kind::Sync, 0, 0) {
             return Err(Self::injected());
         }
@@ -223,7 +245,9 @@ impl StorageBackend for MonBackend {
         Ok(())
     }
     fn write(&self, offset: u64, data: &[u8]) -> io::Result<()> {
+        let seq = entry_seq();
         let mut g = self.lock();
+        g.cur_seq = seq;
         let ok = Self::enter(&mut g, Kind::Write, offset, data.len() as u64);
         let end = offset.checked_add(data.len() as u64);
         if end.is_none() || end.unwrap() > g.data.len() as u64 {
@@ -249,16 +273,20 @@ impl StorageBackend for MonBackend {
         Ok(())
     }
     fn close(&self) -> io::Result<()> {
+        let seq = entry_seq();
         let mut g = self.lock();
+        g.cur_seq = seq;
         if g.closes > 0 {
             g.calls_after_close += 1;
         }
         g.closes += 1;
         let api = g.cur_api;
-        g.events.push(Ev { kind: Kind::Close, off: 0, len: 0, ok: true, api });
+        let seq = g.cur_seq;
+        g.events.push(Ev { kind: Kind::Close, off: 0, len: 0, ok: true, api, seq });
         if g.latch_log {
             redb::verif_c08::latch_log_backend(Kind::Close as u8, true);
         }
+        g.close_exit_seq = entry_seq();
         Ok(())
     }
 }
